@@ -143,7 +143,7 @@ func main() {
 			marker("op/%d/begin/file/%d", i, t)
 			err := osutil.AtomicWriteFile(tname, data, 0644, flags)
 			if err != nil {
-				marker("op/%d/failed", i)
+				marker("op/%d/failed/%d", i, len(data))
 				continue
 			}
 			marker("op/%d/end/%d", i, len(data))
@@ -157,7 +157,7 @@ func main() {
 			marker("op/%d/begin/file/%d", i, t)
 			err := osutil.AtomicWrite(targets[t], &chunkReader{data: append([]byte(nil), data...), chunk: 1 + r.n(9000)}, 0600, flags)
 			if err != nil {
-				marker("op/%d/failed", i)
+				marker("op/%d/failed/%d", i, len(data))
 				continue
 			}
 			marker("op/%d/end/%d", i, len(data))
@@ -192,7 +192,7 @@ func main() {
 			}
 			if failed {
 				af.Cancel()
-				marker("op/%d/failed", i)
+				marker("op/%d/failed/%d", i, len(data))
 				continue
 			}
 			marker("op/%d/end/%d", i, len(data))
